@@ -453,6 +453,9 @@ func c17Corpus() []corr.Case {
 		mk("case mem", "rt writereader-over 2f612f66 5 1", "rt writefile-over 2f612f67 0 1", "rt writereader-over 2f612f68 40000 3"),
 		mk("case cache0", "rt writereader-over 2f612f66 5 1", "rt writefile-over 2f612f67 9 1"),
 		mk("case os", "rt writereader-over 2f612f66 5 1", "rt writefile-over 2f612f67 9 1"),
+		// the directory part is created as spelled: "static/../public" needs static as well as public
+		mk("case osraw", "rt writereader "+corr.HexS("/t/site/static/../public/f.bin")+" 100 1", "rt safewrite "+corr.HexS("/t/s2/static/../public/g.bin")+" 9 2",
+			"rt writereader "+corr.HexS("/t/./a//b/f")+" 5 3", "rt safeexisting "+corr.HexS("/t/s3/x/../y/h.bin")+" 40 4", "rt writefile-over "+corr.HexS("/t/w/f")+" 9 1"),
 	}
 }
 
